@@ -532,6 +532,7 @@ class Interp {
       case O_RECREATE_DW: real::recreate_dw(o.at(0)); break;
       case O_PUSH_TRACER: real::push_tracer(o.at(0)); break;
       case O_POP_TRACER: real::pop_tracer(); break;
+      case O_DROP_TRACER: real::drop_tracer(o.at(0) % depth_tr); break;
       case O_SWAP_REPORTER: swap_good = real::swap_reporter(o.at(0) != 0); res.swaps++; break;
     } };
     if (!injected) {
@@ -718,6 +719,7 @@ class Interp {
         case O_UNWATCH: case O_DESTROY_DW: case O_COPY_DW: case O_MOVE_DW: case O_ASSIGN_DW: k |= C13 | C14; break;
         case O_MOVE_MOCK: case O_DESTROY_MOCK: case O_DESTROY_SEQ: case O_MOVE_SEQ: k |= C14; if (o.kind == O_DESTROY_SEQ) k |= C06; break;
         case O_PUSH_TRACER: case O_POP_TRACER: k |= C17; break;
+        case O_DROP_TRACER: k |= C17 | C14; break;
         default: break;
       }
     }
@@ -740,11 +742,12 @@ class Interp {
       x = x * 6364136223846793005ULL + 1442695040888963407ULL;
       std::swap(t[i - 1], t[(x >> 33) % i]);
     }
-    // tracers are popped LIFO among themselves, at generated positions
+    // tracers are destroyed in a generated order among themselves too (not only innermost first), at generated positions
     for (size_t i = 0; i < m.tracers.size(); ++i) {
       x = x * 6364136223846793005ULL + 1442695040888963407ULL;
       size_t pos = t.empty() ? 0 : (x >> 33) % (t.size() + 1);
-      t.insert(t.begin() + static_cast<long>(pos), Op{O_POP_TRACER, {}});
+      x = x * 6364136223846793005ULL + 1442695040888963407ULL;
+      t.insert(t.begin() + static_cast<long>(pos), Op{O_DROP_TRACER, {static_cast<int>((x >> 33) % MAXTR)}});
     }
     return t;
   }
@@ -781,6 +784,7 @@ class Interp {
     if (o.kind == O_SCOPED) { bool was = stop; stop = true; run_scoped(o); stop = was; check_severity_only(); return; }
     if (o.kind == O_SCOPED_DW) { bool was = stop; stop = true; run_scoped_dw(o); stop = was; return; }
     int eid0 = m.next_eid;
+    int ntr_before = static_cast<int>(m.tracers.size());
     m.step(o);
     real::g_log.clear();
     switch (o.kind) {
@@ -803,6 +807,7 @@ class Interp {
       case O_RECREATE_DW: real::recreate_dw(o.at(0)); break;
       case O_PUSH_TRACER: real::push_tracer(o.at(0)); break;
       case O_POP_TRACER: real::pop_tracer(); break;
+      case O_DROP_TRACER: real::drop_tracer(o.at(0) % ntr_before); break;
       case O_SWAP_REPORTER: real::swap_reporter(o.at(0) != 0); break;
     }
     check_severity_only();
